@@ -68,11 +68,16 @@ Definition classify {V} (x : V + exn) : outcome V exn :=
     end
   end.
 
-(* S3 answers that no retry can change, stated INDEPENDENTLY of the library's table: the request is not authorised,
-   the credentials are wrong, the bucket does not exist (AWS S3 error-code reference) *)
+(* S3 answers that no retry can change, stated INDEPENDENTLY of the library's table (AWS S3 error-code reference; the list is
+   NOT drawn from PERMANENT_S3_ERROR_CODES and is not a subset of the table of the library as it was found): the request is
+   not authorised, the credentials are wrong, the bucket does not exist -- and the REQUEST ITSELF is refused (an argument,
+   the URI, the key length, the byte range or the method is invalid): re-sending the same request cannot succeed.
+   Absent on purpose: not-found answers (known finding F-C20b) and the 4xx answers a retry CAN cure (RequestTimeout,
+   SlowDown / 429, RequestTimeTooSkewed, ExpiredToken, BadDigest). *)
 Definition definitive_codes : list str :=
   [lit "AccessDenied"; lit "InvalidAccessKeyId"; lit "SignatureDoesNotMatch"; lit "NoSuchBucket"; lit "AllAccessDisabled";
-   lit "403"; lit "401"].
+   lit "403"; lit "401";
+   lit "InvalidArgument"; lit "InvalidRequest"; lit "InvalidURI"; lit "KeyTooLongError"; lit "InvalidRange"; lit "MethodNotAllowed"].
 Definition definitive (e : exn) : bool := match e with ClientError c => member c definitive_codes | _ => false end.
 
 (* with_s3_retry(op) where attempt i of op behaves as script[i] *)
